@@ -401,6 +401,8 @@ class HtmlToAst(HTMLParser):
         """Parse the source string."""
         self.struct.clear()
         super().feed(source)
+        # flush any text the parser is still holding back (e.g. a trailing `<b` or `&amp`)
+        super().close()
         return self.struct.outmost
 
     def parse_marked_section(self, i: int, report: int = 1) -> int:
